@@ -244,7 +244,7 @@ def log_expected(st):
 def g_collect_log(w, rng, st):
     if w.cfg['flavour'] != 'experiment':
         return None
-    return {}
+    return {'asm': rng.random() < 0.5}
 
 
 @op('collect_log', 'read')
@@ -268,6 +268,53 @@ def x_collect_log(w, s, st, info):
             return
     str(lc)
     w.stats.inc('probe.accounting')
+    if not s.get('asm') or w.pending:
+        return
+    # ---- the same summary from the serialized model (validates the slice first, may record inferred sites), and the
+    # model it was collected from is still there afterwards, unchanged but for those sites
+    info['may_write'] = True
+    accept, reason, record = w2_validate.validate_expected(st, 'experiment')
+    asm = w.topo.graph_model
+    lc2 = LogCollector()
+    try:
+        lc2.collect_resource_attributes(source=asm)
+    except Exception as e:
+        if accept and type(asm).__name__ == 'NetworkxASM':
+            w.flag('C11', 'accounting_tally', {'field': '<raised>', 'source': 'serialized model', 'exc': type(e).__name__},
+                   'accounting summary from the serialized model of a valid slice raised %s: %s' %
+                   (type(e).__name__, str(e)[:200]))
+        w.stats.inc('probe.accounting_asm_rejected')
+        accept = False
+    post = {'nodes': {k: [dict(v[0])] for k, v in st.state['nodes'].items()}, 'edges': st.state['edges']}
+    for sid, site in record.items():
+        post['nodes'][sid][0]['Site'] = site
+    now = graph_state(w.imp, w.topo.graph_model.graph_id)
+    if canon(now) != canon(st.state) and not (canon(now) == canon(post)):
+        if not now['nodes']:
+            w.flag('C11', 'accounting_source_untouched', {'symptom': 'model_gone'},
+                   'after the accounting summary was collected from the serialized model, the model itself holds no '
+                   'elements any more')
+            return
+        if accept:
+            w.flag('C11', 'accounting_source_untouched', {'symptom': 'changed'},
+                   'collecting the accounting summary from the serialized model changed the model (beyond recording '
+                   'inferred sites)')
+            return
+    if not accept:
+        return
+    a2 = lc2.attributes
+    got2 = {'vm_count': a2['vm_count'], 'core_count': a2['core_count'], 'p4_count': a2['p4_count'],
+            'components': dict(a2['components']), 'services': sorted([list(t) for t in a2['services']], key=canon),
+            'facilities': sorted(a2['facilities']), 'sites': sorted(a2['sites']),
+            'nodes': sorted([[c.core, c.ram, c.disk] for c in a2['nodes']], key=canon)}
+    want2 = log_expected(Struct(post))
+    for k in sorted(want2):
+        if canon(got2[k]) != canon(want2[k]):
+            w.flag('C11', 'accounting_tally', {'field': k, 'source': 'serialized model'},
+                   'accounting summary from the serialized model: %s = %s, a direct tally of the slice gives %s' %
+                   (k, canon(got2[k])[:200], canon(want2[k])[:200]))
+            return
+    w.stats.inc('probe.accounting_asm')
 
 
 @op('label_service_port', 'add')
